@@ -10,7 +10,7 @@ import (
 
 // FaultKinds lists the stored-data fault catalogue.
 var FaultKinds = []string{"truncate", "bitflip", "byte-set", "field16-set", "field32-set", "zero-sector", "dup-sector",
-	"swap-sectors", "torn-overwrite", "garbage-tail", "random-sector", "field16-nudge", "byte-nudge", "length32", "length16", "word-copy"}
+	"swap-sectors", "torn-overwrite", "garbage-tail", "random-sector", "field16-nudge", "byte-nudge", "length32", "length16", "word-copy", "dir-lost-table", "dir-length", "dir-offset", "dir-swap"}
 
 // Fault describes one applied stored-data fault.
 type Fault struct {
@@ -240,10 +240,43 @@ func CorruptFile(t *tape.Tape, data []byte, other []byte) ([]byte, []Fault) {
 			}
 		}
 		var f Fault
-		cur, f = Corrupt(t, cur, lo, hi, other)
+		if dir, err := ParseDirectory(cur); err == nil && len(dir.Entries) > 0 && t.Chance(1, 6) {
+			cur, f = corruptDirectory(t, cur, dir)
+		} else {
+			cur, f = Corrupt(t, cur, lo, hi, other)
+		}
 		if f.Kind != "none" {
 			faults = append(faults, f)
 		}
 	}
 	return cur, faults
+}
+
+// corruptDirectory applies a fault to one record of the table directory: the
+// table is lost (its tag no longer matches), its length or offset is slightly
+// wrong, or two records exchange their offsets (misdirected writes).
+func corruptDirectory(t *tape.Tape, data []byte, dir *Container) ([]byte, Fault) {
+	out := append([]byte(nil), data...)
+	i := t.Draw(len(dir.Entries))
+	rec := 12 + 16*i
+	e := dir.Entries[i]
+	switch t.Weighted(3, 4, 2, 2) {
+	case 0:
+		out[rec+t.Draw(4)] ^= 1 << t.Draw(6)
+		return out, Fault{Kind: "dir-lost-table", Off: rec, Len: 4, Note: e.Tag}
+	case 1:
+		d := []uint32{1, 2, 3, 4, 0xFFFFFFFF, 0xFFFFFFFE, 0xFFFFFFFC, 16}[t.Draw(8)]
+		binary.BigEndian.PutUint32(out[rec+12:], e.Length+d)
+		return out, Fault{Kind: "dir-length", Off: rec + 12, Len: 4, Note: fmt.Sprintf("%s %d->%d", e.Tag, e.Length, e.Length+d)}
+	case 2:
+		d := []uint32{4, 0xFFFFFFFC, 8, 0xFFFFFFF8, 1, 2}[t.Draw(6)]
+		binary.BigEndian.PutUint32(out[rec+8:], e.Offset+d)
+		return out, Fault{Kind: "dir-offset", Off: rec + 8, Len: 4, Note: fmt.Sprintf("%s %d->%d", e.Tag, e.Offset, e.Offset+d)}
+	default:
+		j := t.Draw(len(dir.Entries))
+		rj := 12 + 16*j
+		copy(out[rec+8:rec+16], data[rj+8:rj+16])
+		copy(out[rj+8:rj+16], data[rec+8:rec+16])
+		return out, Fault{Kind: "dir-swap", Off: rec + 8, Len: 8, Note: e.Tag + "<->" + dir.Entries[j].Tag}
+	}
 }
